@@ -77,6 +77,15 @@ class HeaderExtensionsMap:
 
     def get(self, extension_profile: int, extension_value: bytes) -> HeaderExtensions:
         values = HeaderExtensions()
+        try:
+            self.__get(values, extension_profile, extension_value)
+        except struct.error:
+            raise ValueError("RTP header extension has an invalid length")
+        return values
+
+    def __get(
+        self, values: HeaderExtensions, extension_profile: int, extension_value: bytes
+    ) -> None:
         for x_id, x_value in unpack_header_extensions(
             extension_profile, extension_value
         ):
@@ -95,7 +104,6 @@ class HeaderExtensionsMap:
                 values.audio_level = (vad_level & 0x80 == 0x80, vad_level & 0x7F)
             elif x_id == self.__ids.transport_sequence_number:
                 values.transport_sequence_number = unpack("!H", x_value)[0]
-        return values
 
     def set(self, values: HeaderExtensions) -> tuple[int, bytes]:
         extensions = []
